@@ -8,6 +8,7 @@
 package c02
 
 import (
+	"encoding/hex"
 	"fmt"
 	"math/big"
 	"strings"
@@ -15,6 +16,7 @@ import (
 
 	sdkmath "cosmossdk.io/math"
 	sdk "github.com/cosmos/cosmos-sdk/types"
+	authtypes "github.com/cosmos/cosmos-sdk/x/auth/types"
 	distrtypes "github.com/cosmos/cosmos-sdk/x/distribution/types"
 	stakingtypes "github.com/cosmos/cosmos-sdk/x/staking/types"
 	transfertypes "github.com/cosmos/ibc-go/v7/modules/apps/transfer/types"
@@ -34,13 +36,13 @@ import (
 const Prop = "C02"
 
 type scenario struct {
-	topo    string // direct | one | two
-	v0, v1  int64  // value S->R, R->X
-	method  string
-	named   string // signer | caller
-	amt     string // 1 | mid | all | all+1 | -
-	pre     string // base | wd-other | no-rewards
-	dirty   string // none | signer | withdrawer
+	topo   string // direct | one | two
+	v0, v1 int64  // value S->R, R->X
+	method string
+	named  string // signer | caller
+	amt    string // 1 | mid | all | all+1 | -
+	pre    string // base | wd-other | no-rewards
+	dirty  string // none | signer | withdrawer
 }
 
 func (s scenario) String() string {
@@ -337,6 +339,8 @@ func Worker(shard, n int, tier string) *engine.Result {
 		for _, s := range cmpStores {
 			a[s] = engine.DumpStore(w.App.BaseApp.VerifDeliverCtx(), w, s)
 		}
+		balA := []sdkmath.Int{w.App.BankKeeper.GetBalance(w.Ctx(), w.Addrs[f.S], world.Denom).Amount,
+			w.App.BankKeeper.GetBalance(w.Ctx(), authtypes.NewModuleAddress(authtypes.FeeCollectorName), world.Denom).Amount}
 		restoreA()
 		// ---- C: native replay
 		restoreC := w.Branch()
@@ -407,6 +411,94 @@ func Worker(shard, n int, tier string) *engine.Result {
 			res.AddViolation(engine.Violation{Signature: sig("failed-call-leaves-state"), What: "a precompile call that failed (like its native counterpart) nevertheless left module state modified", Path: p, Detail: detail})
 		} else if len(detail) > 6 {
 			res.AddViolation(engine.Violation{Signature: sig("misdirect"), What: "balances / stake after the transaction differ from the native replay of the same transfers and message", Path: p, Detail: detail})
+		}
+		if len(detail) > 6 {
+			continue
+		}
+		// ---- P: the same transaction with a non-zero gas price: supply still unchanged, and the bank
+		// store equals run A's except that the signer paid exactly gasUsed x price to the fee collector
+		restoreP := w.Branch()
+		r.applyPre(sc.pre)
+		rootP, leafP, _, _ := r.build(sc)
+		ctxP := w.App.BaseApp.VerifDeliverCtx()
+		toP, dataP := to, data
+		if rootP != nil {
+			calltree.Install(w, ctxP, rootP, nil)
+			toP, dataP = rootP.Addr(), nil
+		} else {
+			toP, dataP = leafP.To, leafP.Data
+		}
+		price := big.NewInt(1000000000)
+		bzP, err := world.WrapEth(w.SignEth(w.Keys[f.S], world.EthSpec{Nonce: nonce, Gas: 10000000, To: &toP, Value: big.NewInt(sc.v0), GasPrice: price, Data: dataP}))
+		if err != nil {
+			panic(err)
+		}
+		respP := w.Deliver(bzP)
+		okP := respP.Code == 0
+		if rootP != nil {
+			holderP, idxP := rootP, len(rootP.Items)-1
+			if sc.topo == "two" {
+				holderP, idxP = rootP.Items[len(rootP.Items)-1].Child, 0
+			}
+			okP = okP && w.Slot(w.Ctx(), holderP.Addr(), uint64(calltree.SlotFlag+idxP)).Sign() != 0
+		} else if tr, err := decode(respP.Data); err == nil && tr {
+			okP = false
+		}
+		supplyP := w.App.BankKeeper.GetSupply(w.Ctx(), world.Denom).Amount
+		pb := engine.DumpStore(w.App.BaseApp.VerifDeliverCtx(), w, "bank")
+		balP := func(a sdk.AccAddress) sdkmath.Int { return w.App.BankKeeper.GetBalance(w.Ctx(), a, world.Denom).Amount }
+		feeColl := authtypes.NewModuleAddress(authtypes.FeeCollectorName)
+		sP, fP := balP(w.Addrs[f.S]), balP(feeColl)
+		restoreP()
+		res.Transitions++
+		res.Evaluations++
+		fee := sdkmath.NewIntFromBigInt(new(big.Int).Mul(price, big.NewInt(respP.GasUsed)))
+		dP := map[string]any{"tx_code": respP.Code, "log": short(respP.Log), "gas_used": respP.GasUsed, "fee": fee.String()}
+		switch {
+		case respP.Code != resp.Code:
+			dP["code_at_price_0"] = resp.Code
+			res.AddViolation(engine.Violation{Signature: sig("priced-verdict"), What: "the same transaction succeeds / fails differently once it has a gas price", Path: p, Detail: dP})
+		case !supplyP.Equal(supplyPre):
+			dP["supply_delta"] = supplyP.Sub(supplyPre).String()
+			res.AddViolation(engine.Violation{Signature: sig("priced-supply"), What: "executing an Ethereum transaction with a gas price changed the total supply of the native coin", Path: p, Detail: dP})
+		case okP != okA:
+			// the fee leaves less to spend: amounts derived from the whole balance legitimately stop
+			// succeeding; for any other amount the verdict must not depend on the price
+			if strings.Contains(sc.String(), ",all") {
+				res.Counters["priced_runs_verdict_differs_for_whole-balance_amounts"]++
+			} else {
+				dP["precompile_ok_at_price_0"] = okA
+				res.AddViolation(engine.Violation{Signature: sig("priced-verdict"), What: "the precompile call succeeds / fails differently once the transaction has a gas price", Path: p, Detail: dP})
+			}
+		default:
+			// expected bank store: run A's with the fee moved from the signer to the fee collector
+			want := map[string]string{}
+			for k, v := range a["bank"] {
+				want[k] = v
+			}
+			diff := engine.DiffStores(want, pb)
+			// the only keys allowed to differ are the two balances; check them by value
+			var other []string
+			sKey, fKey := hex.EncodeToString(w.Addrs[f.S]), hex.EncodeToString(feeColl)
+			for _, dl := range diff {
+				if !strings.Contains(dl, sKey) && !strings.Contains(dl, fKey) {
+					other = append(other, dl)
+				}
+			}
+			if len(other) > 0 {
+				if len(other) > 4 {
+					other = other[:4]
+				}
+				dP["bank_diff"] = other
+				res.AddViolation(engine.Violation{Signature: sig("priced-misdirect"), What: "with a gas price, balances other than the signer's and the fee collector's differ from the run at price 0", Path: p, Detail: dP})
+			}
+			sA, fA := balA[0], balA[1]
+			if !sA.Sub(sP).Equal(fee) || !fP.Sub(fA).Equal(fee) {
+				dP["signer_paid"] = sA.Sub(sP).String()
+				dP["collector_got"] = fP.Sub(fA).String()
+				res.AddViolation(engine.Violation{Signature: sig("priced-fee"), What: "the signer did not pay exactly gasUsed x price to the fee collector on top of the effects at price 0", Path: p, Detail: dP})
+			}
+			res.Counters["priced_runs_compared"]++
 		}
 	}
 	return res
